@@ -7,9 +7,17 @@
    Spec:  Conn_Spec.v   (edge i j := j occurs in list i; reach = its reflexive-transitive
    closure; wf_graph = one list per sample, entries < N; is_knn_graph = exact k-NN lists,
    the conclusion of property C02, assumed of the abstract search).
-   A result `COk b` means: no out-of-range access, fuel not exhausted, answer b. *)
+   A result `COk b` means: no out-of-range access, fuel not exhausted, answer b.
+
+   NOTE (2026-10-01): fix F3 is committed in /repo (78644c2); `is_connected_fixed` IS the
+   model of the current connected.hpp, `is_connected` the model of the old one.  The
+   `_refuted` / `fn_shipped_*` theorems are kept as regression theorems about the old code.
+   Link to property C04: Dijkstra_Model.full_matrix is the model of tapkee's
+   compute_shortest_distances_matrix (both heap configurations, any admissible queue). *)
 From Coq Require Import List Arith Bool ZArith Permutation.
-From TK Require Import Conn_Model Conn_Spec Conn_Proof Conn_Proof_Main.
+From TK Require Import Conn_Model Conn_Spec Conn_Proof Conn_Proof_Main Conn_Proof_Order
+     Conn_Proof_Dijkstra Conn_Proof_Knn.
+From TK Require Dijkstra_Model Dijkstra_Spec Dijkstra_Proof_Base Knn_Spec.
 Import ListNotations.
 
 (* ---- what the shipped test decides: reachability from sample 0 along out-edges ---- *)
@@ -125,6 +133,79 @@ Theorem cc_result_perm : forall dist knn N,
 Proof. exact main_cc_result_perm. Qed.
 Print Assumptions cc_result_perm.
 
+(* ---- neither the number of neighbours nor the neighbour sets depend on the order of the
+        samples or on which exact search produced the lists, on tie-free data: knn1 any exact
+        search on the samples, knn2 any exact search on the same samples supplied in the order p
+        (new position v holds old sample nth v p) ---- *)
+Theorem cc_order_independent : forall dist N knn1 knn2 p,
+  tie_free dist N -> is_perm N p -> 1 <= N ->
+  (forall k, k <= N - 1 -> is_knn_graph dist N k (knn1 k)) ->
+  (forall k, k <= N - 1 ->
+     is_knn_graph (fun v u => dist (nth v p 0) (nth u p 0)) N k (knn2 k)) ->
+  forall k, 1 <= k ->
+  exists k' g1 g2,
+    find_neighbors is_connected_fixed knn1 N N k true = COk (k', g1) /\
+    find_neighbors is_connected_fixed knn2 N N k true = COk (k', g2) /\
+    forall v u, v < N -> u < N ->
+      (In u (nth v g2 []) <-> In (nth u p 0) (nth (nth v p 0) g1 [])).
+Proof. exact main_cc_order_independent. Qed.
+Print Assumptions cc_order_independent.
+
+(* same samples, two different exact searches (brute force / VP-tree / cover tree) *)
+Theorem cc_method_independent : forall dist N knn1 knn2,
+  tie_free dist N -> 1 <= N ->
+  (forall k, k <= N - 1 -> is_knn_graph dist N k (knn1 k)) ->
+  (forall k, k <= N - 1 -> is_knn_graph dist N k (knn2 k)) ->
+  forall k, 1 <= k ->
+  exists k' g1 g2,
+    find_neighbors is_connected_fixed knn1 N N k true = COk (k', g1) /\
+    find_neighbors is_connected_fixed knn2 N N k true = COk (k', g2) /\
+    forall v u, v < N -> u < N -> (In u (nth v g2 []) <-> In u (nth v g1 [])).
+Proof. exact main_cc_method_independent. Qed.
+Print Assumptions cc_method_independent.
+
+(* ---- link to C04: on the returned graph the model of tapkee's own
+        compute_shortest_distances_matrix (priority-queue or Fibonacci-heap build, any admissible
+        choice among equal keys) runs to completion and every entry is finite ---- *)
+Theorem cc_dijkstra_finite : forall dist knn N,
+  (forall k, k <= N - 1 -> is_knn_graph dist N k (knn k)) -> 1 <= N ->
+  forall k k' g, 1 <= k ->
+  find_neighbors is_connected_fixed knn N N k true = COk (k', g) ->
+  forall fl w pick, Dijkstra_Spec.nonneg_w g w -> Dijkstra_Proof_Base.pick_ok pick ->
+  exists m, Dijkstra_Model.full_matrix fl g w pick N = Dijkstra_Model.DOk m /\
+    forall i j, i < N -> j < N -> exists z, Dijkstra_Spec.entry_of m i j = Some z.
+Proof. exact main_cc_dijkstra_finite. Qed.
+Print Assumptions cc_dijkstra_finite.
+
+(* the old recursion on the 8-point witness: the same routine leaves an entry infinite *)
+Theorem fn_shipped_dijkstra_refuted :
+  exists pts k,
+    let N := length pts in
+    let knn := knn_brute pts in
+    NoDup pts /\ 3 <= k /\
+    (forall k', k' <= N - 1 -> is_knn_graph (pdist pts) N k' (knn k')) /\
+    exists g, find_neighbors is_connected knn N N k true = COk (k, g) /\
+      forall fl pick, Dijkstra_Proof_Base.pick_ok pick ->
+      exists m i j, i < N /\ j < N /\
+        Dijkstra_Model.full_matrix fl g (pdist pts) pick N = Dijkstra_Model.DOk m /\
+        Dijkstra_Spec.entry_of m i j = None.
+Proof. exact main_fn_shipped_dijkstra_refuted. Qed.
+Print Assumptions fn_shipped_dijkstra_refuted.
+
+(* ---- link to C02: the hypothesis on the search is literally C02's conclusion
+        (Knn_Spec.is_knn for every row, indices in Z) ---- *)
+Theorem cc_from_c02 : forall d N (search : nat -> list (list Z)),
+  1 <= N ->
+  (forall k, k <= N - 1 -> length (search k) = N /\
+     forall i, i < N -> Knn_Spec.is_knn d N (Z.of_nat i) k (nth i (search k) [])) ->
+  forall k, 1 <= k ->
+  exists j, find_neighbors is_connected_fixed (fun k => graph_of_Z (search k)) N N k true
+            = COk (kseq N k j, graph_of_Z (search (kseq N k j))) /\
+    strongly_connected N (graph_of_Z (search (kseq N k j))) /\
+    forall j', j' < j -> ~ strongly_connected N (graph_of_Z (search (kseq N k j'))).
+Proof. exact main_cc_from_c02. Qed.
+Print Assumptions cc_from_c02.
+
 (* the boolean oracles the harness applies to the implementation's own output *)
 Theorem spec_oracles : forall N nb, 0 < N -> wf_b N nb = true ->
   (strong_b N nb = true <-> strongly_connected N nb) /\
@@ -142,3 +223,25 @@ Example hyps_search_satisfiable :
   find_neighbors is_connected_fixed (knn_brute w8_pts) 8 8 3 true = COk (6, knn_brute w8_pts 6) /\
   find_neighbors is_connected_fixed (knn_brute w8_pts) 8 8 6 true = COk (6, knn_brute w8_pts 6).
 Proof. exact nv_search. Qed.
+
+Example hyps_order_satisfiable :
+  tie_free (pdist t8_pts) 8 /\ is_perm 8 w8_rev /\ 1 <= 8 /\
+  (forall k, k <= 8 - 1 -> is_knn_graph (pdist t8_pts) 8 k (knn_brute t8_pts k)) /\
+  (forall k, k <= 8 - 1 ->
+     is_knn_graph (fun v u => pdist t8_pts (nth v w8_rev 0) (nth u w8_rev 0)) 8 k
+                  (knn_brute (rev t8_pts) k)) /\
+  find_neighbors is_connected_fixed (knn_brute t8_pts) 8 8 3 true = COk (6, knn_brute t8_pts 6) /\
+  find_neighbors is_connected_fixed (knn_brute (rev t8_pts)) 8 8 3 true
+  = COk (6, knn_brute (rev t8_pts) 6).
+Proof. exact nv_order. Qed.
+
+Example hyps_dijkstra_satisfiable :
+  Dijkstra_Spec.nonneg_w (knn_brute w8_pts 6) (pdist w8_pts) /\
+  Dijkstra_Proof_Base.pick_ok Dijkstra_Model.pick_first_min /\
+  find_neighbors is_connected_fixed (knn_brute w8_pts) 8 8 3 true = COk (6, knn_brute w8_pts 6).
+Proof. exact nv_dijkstra. Qed.
+
+Example hyps_c02_satisfiable : 1 <= 3 /\
+  (forall k, k <= 3 - 1 -> length (c02_search k) = 3 /\
+     forall i, i < 3 -> Knn_Spec.is_knn c02_d 3 (Z.of_nat i) k (nth i (c02_search k) [])).
+Proof. exact nv_c02. Qed.
